@@ -1253,7 +1253,9 @@ Proof.
       apply (Hcommon c0 code_a va (INeg c0 va) (fun xa => EParen (EUn UNeg xa)) Hm eq_refl eq_refl eq_refl eq_refl (fun _ => eq_refl) (or_introl eq_refl)).
       intros F0 E0 st0 xa sva st1 r0 Hd Hr Hwf0 Hl0.
       destruct (denotes_now _ _ _ _ _ Hd Hwf0 Hl0) as (lv & Hv & _).
-      inversion Hv; subst; cbn in Hr; inversion Hr; subst; cbn; auto.
+      inversion Hv; subst; cbn in Hr;
+        try (match type of Hr with context [Runtime.has_digit ?x] => destruct (Runtime.has_digit x); cbn in Hr end);
+        inversion Hr; subst; cbn; auto.
       split; [reflexivity | apply denotes_neg; exact Hd].
     + (* not *)
       apply (Hcommon c0 code_a va (INot c0 va) (fun xa => EParen (EUn UNot xa)) Hm eq_refl eq_refl eq_refl eq_refl (fun _ => eq_refl) (or_introl eq_refl)).
@@ -1304,6 +1306,14 @@ Proof.
     eexists _, _. split; [apply (cshape_iis u l (IInt c z) c (aint z) c (c + 1)); [lia | reflexivity | reflexivity]|].
     split; [lia|]. split; [lia|].
     destruct (finish_iis pv sv bound u fl W sc e st F c (c + 1) E stL l c _ _ Hrel Hctx ltac:(lia) (denotes_int F E stL z))
+      as (E3 & stL3 & F3 & Hok3 & Hd3).
+    cbn [eval_post]. exists E3, stL3, F3. split; assumption.
+  - (* EStr *)
+    cbn [expression] in Hlow. mon Hlow. fresh_all. inj_code.
+    cbn in Hev. inversion Hev; subst r st'. clear Hev.
+    eexists _, _. split; [apply (cshape_iis u l (IStr c s) c (LuaAst.EStr s) c (c + 1)); [lia | reflexivity | reflexivity]|].
+    split; [lia|]. split; [lia|].
+    destruct (finish_iis pv sv bound u fl W sc e st F c (c + 1) E stL l c _ _ Hrel Hctx ltac:(lia) (denotes_str F E stL s))
       as (E3 & stL3 & F3 & Hok3 & Hd3).
     cbn [eval_post]. exists E3, stL3, F3. split; assumption.
   - (* EBool *)
